@@ -362,9 +362,16 @@ def evaluate_case_x(tree_mp, prop, fname, reg, specs, p, rec, tol_exp=8, tmax=20
     comp = refmodel.to_ref(rm, val)
     with at_prec(rm, 2 * p + 300):
         if rm.isnan(comp) or rm.isinf(comp) or rm.isinf(refv) or rm.isnan(refv):
-            rec.case(ident, False, cls)
             if rm.isinf(comp) and rm.isinf(refv) and comp == refv:
+                rec.case(ident, False, cls)
                 return 'held'
+            if rm.isfinite(refv):
+                # inf / nan returned where two sources agree on a finite value: the relative error is unbounded
+                rec.case(ident, True, cls)
+                rec.violation(key + '/non-finite-result', '%s returns %s at prec %d where the value is finite (reference: %s)'
+                              % (fname, str(val)[:20], p, info), case, observed=str(val)[:80], expected=str(refv)[:80], severity=None)
+                return 'violated'
+            rec.case(ident, False, cls)
             rec.undecided('non-finite', case)
             return 'undecided'
         if refv == 0:
